@@ -17,26 +17,27 @@ SlotsA == 1..NSlots
 Live == {s \in SlotsA : held[s] # 0}
 
 Init == nxt = 1 /\ free = {} /\ held = [s \in SlotsA |-> 0]
-        /\ out = [op |-> "init", s |-> 0, z |-> 0, cls |-> 0, res |-> ""]
+        /\ out = [op |-> "init", s |-> 0, z |-> 0, cls |-> 0, uz |-> 0, res |-> ""]
 
 \* cls: instance of UrwidImage (0), of a subclass (1), of a sub-subclass (2) - one shared allocator
+\* uz:  the format spec given to the widget carries a z-index field (ignored: no effect on the allocator)
 New ==
-  \E s \in SlotsA, cls \in 0..2 :
+  \E s \in SlotsA, cls \in 0..2, uz \in 0..1 :
     /\ held[s] = 0
     /\ IF AllocOutcomes(Bits, nxt, free) = {}
-         THEN /\ out' = [op |-> "new", s |-> s, z |-> 0, cls |-> cls, res |-> "UrwidImageError"]
+         THEN /\ out' = [op |-> "new", s |-> s, z |-> 0, cls |-> cls, uz |-> uz, res |-> "UrwidImageError"]
               /\ UNCHANGED <<nxt, free, held>>
          ELSE \E o \in AllocOutcomes(Bits, nxt, free) :
                 /\ held' = [held EXCEPT ![s] = o.z]
                 /\ nxt' = o.next /\ free' = o.free
-                /\ out' = [op |-> "new", s |-> s, z |-> o.z, cls |-> cls, res |-> ""]
+                /\ out' = [op |-> "new", s |-> s, z |-> o.z, cls |-> cls, uz |-> uz, res |-> ""]
 
 Drop ==
   \E s \in SlotsA :
     /\ held[s] # 0
     /\ free' = free \cup {held[s]}
     /\ held' = [held EXCEPT ![s] = 0]
-    /\ out' = [op |-> "drop", s |-> s, z |-> held[s], cls |-> 0, res |-> ""]
+    /\ out' = [op |-> "drop", s |-> s, z |-> held[s], cls |-> 0, uz |-> 0, res |-> ""]
     /\ UNCHANGED nxt
 
 Next == New \/ Drop
@@ -60,7 +61,7 @@ View == <<nxt, free, {held[s] : s \in Live}>>
 
 \* edge dump (operation sequences for the real-code replay near 2^31 - 1)
 AObs == [nxt |-> nxt, free |-> free, hs |-> {held[s] : s \in Live}]
-Dump == PrintT(<<"EDGE", ToJson([from |-> AObs, op |-> [op |-> out'.op, z |-> out'.z, cls |-> out'.cls, res |-> out'.res], to |-> AObs'])>>)
+Dump == PrintT(<<"EDGE", ToJson([from |-> AObs, op |-> [op |-> out'.op, z |-> out'.z, cls |-> out'.cls, uz |-> out'.uz, res |-> out'.res], to |-> AObs'])>>)
 InitDump == Init /\ PrintT(<<"INIT", ToJson(AObs)>>)
 SpecDump == InitDump /\ [][Next]_vars
 =============================================================================
